@@ -134,6 +134,7 @@ fn build(ch: &mut Chooser, fmt: &str) -> (Vec<u8>, Meta, Vec<(String, String)>) 
             b.named_name_last = ch.flag("ods.named-range-name-attribute-last");
             b.indent = ch.flag("ods.document-indented");
             b.style_name_collision = ch.flag("ods.other-style-families-reuse-table-style-names");
+            b.dde_links = ch.flag("ods.dde-links-with-unnamed-cache-table");
             for s in &m.sheets {
                 b.sheets.push(ods::OSheet { name: s.name.clone(), rows: vec![ods::ORow { cells: vec![(ods::OCell::new(ods::OVal::Float("1".into(), "float")), 1)], repeat: 1 }], display: match s.vis { SheetVisible::Visible => if ch.flag("ods.explicit-display-true") { Some(true) } else { None }, _ => Some(false) } });
             }
